@@ -39,7 +39,7 @@ func runDispatch(ctx *core.Ctx, dc dispatchCase) {
 		core.Fatalf("upstream peer: %v", err)
 	}
 	defer up.Close()
-	args := []string{"--proxy", "http://" + up.Addr, "--log-level", "error"}
+	args := []string{"--proxy", "http://" + up.Addr, "--log-level", "error", "--api-address", ""} // (no API listener: its fixed default port may be taken)
 	if dc.HasReq {
 		args = append(args, "--header", "X-Req-Mark: 1", "--header", "-X-Drop-Req")
 	}
